@@ -15,7 +15,7 @@ func init() { Registry["C20"] = checkC20 }
 func checkC20(r *core.Run, p *core.Program) {
 	r.Rule("C20.check-before-descend", "every iterator for a kind that has pointer identity (pointer, slice, map) asks the reference tracker (TryAddLocalReference) before it descends into the value and returns at once when a reference was emitted; so a shared or cyclic value is written once and referenced afterwards, and marshaling terminates.")
 	r.Rule("C20.tracker", "the reference tracker is sound: it only takes the pointer of kinds that have one (kind guard before TypedPointerOfRV), looks the value up in the duplicate set and in the name table under the same typed (type, address) key - never a bare address, which conflates an object with a pointer to its first field -, emits a marker on the first visit and a reference on later visits, returns true only when it emitted a reference, numbers markers from a counter that advances (pointer receiver), and both tables are rebuilt for every Iterate call.")
-	r.Rule("C20.deferred-fill", "on the building side: every builder rejects, delegates or registers a local reference with the reference filler; setters of growable containers resolve their element when called; the filler calls or queues the setter and runs and clears the queue when the marker arrives; marker and reference identifiers are copied before they are kept; the marked-object builder reports scalars and containers to the filler (C06.references, C06.retained-bytes).")
+	//r.Rule("C20.deferred-fill", "on the building side: every builder rejects, delegates or registers a local reference with the reference filler; setters of growable containers resolve their element when called; the filler calls or queues the setter and runs and clears the queue when the marker arrives; marker and reference identifiers are copied before they are kept; the marked-object builder reports scalars and containers to the filler (C06.references, C06.retained-bytes).")
 	r.Rule("C20.setter-pointers", "the deferred setter can store a referenced object into a pointer-typed destination of a different pointer depth (graphs with pointers to shared pointers).")
 	r.NotDecide("isomorphism of the rebuilt graph; completeness of the third-party duplicate finder (empty containers are skipped by it); equality of all other values")
 
@@ -227,25 +227,6 @@ func checkC20(r *core.Run, p *core.Program) {
 		})
 		r.Check("C20.tracker", "Iterate|both reference tables rebuilt per document", f.Decl.Pos(), reb["foundReferences"] && reb["namedReferences"], "Iterate must recompute the duplicate set and start a new name table for every value it marshals")
 	}
-
-	// ---- deferred fill (shared with C06) ---------------------------------------------------------------------
-	sub := core.NewRun("C20", r.Tier, r.Seed, r.VerifDir)
-	sub.Prog = p
-	checkC06(sub, p)
-	n := 0
-	for _, o := range sub.Obls {
-		switch o.Rule {
-		case "C06.references":
-			n++
-			r.CheckAt("C20.deferred-fill", o.Construct, o.Pos, o.OK, o.Detail)
-		case "C06.retained-bytes":
-			if strings.Contains(o.Construct, "OnMarker") || strings.Contains(o.Construct, "OnReferenceLocal") || strings.Contains(o.Construct, "LocalReference") || strings.Contains(o.Construct, "markerObjectBuilder") {
-				n++
-				r.CheckAt("C20.deferred-fill", o.Construct, o.Pos, o.OK, o.Detail)
-			}
-		}
-	}
-	r.Floor("C20.deferred-fill", "shared reference obligations", n, 50)
 
 	// ---- setter pointers ----------------------------------------------------------------------------------------
 	if f := findFn(p, "builder", "setAnythingFromAnything"); f == nil {
